@@ -62,6 +62,8 @@ type gnode struct {
 	ptomb map[string]int64
 	// firstVal: entry id -> timestamp in the first value this node (incarnation) ever stored under the ring key
 	firstVal map[string]int64
+	// emitted: per key, the join of every broadcast this node (incarnation) has handed to the network
+	emitted map[string]memberlist.Mergeable
 }
 
 type packet struct {
@@ -154,6 +156,7 @@ func (w *gworld) boot(nd *gnode) {
 	nd.tomb = map[string]bool{}
 	nd.ptomb = map[string]int64{}
 	nd.firstVal = nil
+	nd.emitted = map[string]memberlist.Mergeable{}
 	nd.watchers = nil
 }
 
@@ -263,6 +266,51 @@ func (nd *gnode) visible(key string) interface{} {
 	return v
 }
 
+// noteEmitted merges a broadcast the node hands out into the join of everything it has said so far.
+func (nd *gnode) noteEmitted(msg []byte) {
+	var kvp memberlist.KeyValuePair
+	if err := kvp.Unmarshal(msg); err != nil || kvp.Deleted {
+		return
+	}
+	var v interface{}
+	var err error
+	switch kvp.Key {
+	case ringKey, ring2Key:
+		v, err = ring.GetCodec().Decode(kvp.Value)
+	case partKey:
+		v, err = ring.GetPartitionRingCodec().Decode(kvp.Value)
+	default:
+		return
+	}
+	mv, ok := v.(memberlist.Mergeable)
+	if err != nil || !ok {
+		return
+	}
+	if cur := nd.emitted[kvp.Key]; cur == nil {
+		nd.emitted[kvp.Key] = mv.Clone()
+	} else {
+		_, _ = cur.Merge(mv, false)
+	}
+}
+
+// unsaid returns the entries of the node's stored value for key that are news to somebody who has heard every
+// broadcast the node has handed out (nil if there is none).
+func (nd *gnode) unsaid(key string) []string {
+	raw, _ := nd.raw(key).(memberlist.Mergeable)
+	if raw == nil {
+		return nil
+	}
+	cur := nd.emitted[key]
+	if cur == nil {
+		return raw.MergeContent()
+	}
+	ch, err := cur.Clone().Merge(raw, false)
+	if err != nil || ch == nil {
+		return nil
+	}
+	return ch.MergeContent()
+}
+
 // ---- network -----------------------------------------------------------------------------------
 
 func (w *gworld) connected(a, b int) bool {
@@ -278,6 +326,7 @@ func (w *gworld) gossipPacket(from, to int, limit int) *packet {
 	cp := make([][]byte, len(msgs))
 	for i, m := range msgs {
 		cp[i] = append([]byte(nil), m...)
+		w.nodes[from].noteEmitted(m)
 	}
 	return &packet{from: from, to: to, msgs: cp, kind: "gossip", sentAt: w.s.Elapsed()}
 }
